@@ -12,6 +12,7 @@ inductive Fn where
   | powc (p : Int) (c : Rat)        -- x^p - c
   | sat (s c : Rat)                 -- (x-s)/(1+|x-s|) - c
   | plat (k : Nat) (d : Rat)        -- 1/(1+x^2)^k - d
+  | at (t : Rat) (v : Option Rat) (g : Fn)   -- the value v (none = NaN) at x = t, g elsewhere
   | nanle (t : Rat) (g : Fn)        -- NaN for x <= t
   | nange (t : Rat) (g : Fn)        -- NaN for x >= t
 
@@ -21,6 +22,7 @@ def Fn.eval : Fn → Rat → Option Rat
   | .powc p c, x => if x = 0 ∧ p < 0 then none else some (x ^ p - c)
   | .sat s c, x => some ((x - s) / (1 + rabs (x - s)) - c)
   | .plat k d, x => some ((1 / (1 + x * x)) ^ k - d)
+  | .at t v g, x => if x = t then v else g.eval x
   | .nanle t g, x => if x ≤ t then none else g.eval x
   | .nange t g, x => if x ≥ t then none else g.eval x
 
@@ -33,6 +35,7 @@ def Fn.mag : Fn → Rat → Rat
   | .powc p c, x => rabs (x ^ p) * (1 + rabs (p : Rat)) + rabs c
   | .sat s c, x => (rabs x + rabs s) / (1 + rabs (x - s)) + rabs c
   | .plat k d, x => (1 / (1 + x * x)) ^ k * (2 + (k : Rat)) + rabs d
+  | .at t v g, x => if x = t then rabs (v.getD 0) else g.mag x
   | .nanle _ g, x => g.mag x
   | .nange _ g, x => g.mag x
 
@@ -43,6 +46,12 @@ partial def pFn : P Fn := do
   else if k = "powc" then do let p ← pInt; let c ← pRat; pure (.powc p c)
   else if k = "plat" then do let p ← pNat; let c ← pRat; pure (.plat p c)
   else if k = "sat" then do let s ← pRat; let c ← pRat; pure (.sat s c)
+  else if k = "at" then do
+    let t ← pRat
+    let vt ← tok
+    let v ← (if vt = "nan" then pure none else match parseRat vt with | some r => pure (some r) | none => failure : P (Option Rat))
+    let g ← pFn
+    pure (.at t v g)
   else if k = "nanle" then do let t ← pRat; let g ← pFn; pure (.nanle t g)
   else if k = "nange" then do let t ← pRat; let g ← pFn; pure (.nange t g)
   else failure
